@@ -132,6 +132,11 @@ func place(t *rapid.T, typ string, target clienttypes.Height, nUpd int) clientPl
 	if h > math.MaxInt64-uint64(nUpd)-1 {
 		nUpd = 0
 	}
+	// the ETH client computes the difficulty bomb 2^((number-9.7M)/100000 - 2) for every header it checks:
+	// above realistic block numbers that never terminates (not a C13 matter): create-only there
+	if typ == tETH && h > 1<<32 {
+		nUpd = 0
+	}
 	// clienttypes.SetRevisionNumber renders revisions >= 2^63 as negative numbers, so a Tendermint client
 	// at such a revision rejects every header (not a C13 matter): create-only
 	if typ == tTM && p.Rev > math.MaxInt64 {
